@@ -397,48 +397,6 @@ fn family_chunk(idx: u64, out: &mut CaseOut, st: &mut Stats) {
     }
 }
 
-/// three locations where the direct connection X -> Z is much slower than the detour over Y,
-/// trips at X and Z and a maintenance slot at Y in between: a vehicle can drive a -> slot -> c,
-/// but a cannot reach c directly
-fn gap_network(rng: &mut Rng, tag: &str) -> Value {
-    let base = BASE;
-    let shunt_min = *rng.pick(&[0i64, 60, 300]);
-    let shunt_dh = *rng.pick(&[0i64, 60, 300]);
-    let hop = rng.range(5, 30) * 60;
-    let slow = rng.range(8, 30) * 3600;
-    let a_start = base + rng.range(0, 4) * 900;
-    let a_end = a_start + rng.range(1, 4) * 900;
-    let m_start = a_end + hop + 2 * shunt_dh + rng.range(0, 2) * 600;
-    let m_end = m_start + rng.range(1, 4) * 900;
-    let c_start = m_end + hop + 2 * shunt_dh + rng.range(0, 2) * 600;
-    let extra_start = c_start + 3600 + slow; // a trip that a CAN reach directly
-    let t = |x: i64| refmodel::time::format(x);
-    json!({
-        "vehicleTypes": [{"id": format!("{}.V", tag), "capacity": 100, "seats": 60}],
-        "locations": [{"id": format!("{}.X", tag)}, {"id": format!("{}.Y", tag)}, {"id": format!("{}.Z", tag)}],
-        "routes": [
-            {"id": format!("{}.rx", tag), "vehicleType": format!("{}.V", tag), "segments": [{"id": format!("{}.rxs", tag), "order": 0, "origin": format!("{}.X", tag), "destination": format!("{}.X", tag), "distance": 20000, "duration": a_end - a_start}]},
-            {"id": format!("{}.rz", tag), "vehicleType": format!("{}.V", tag), "segments": [{"id": format!("{}.rzs", tag), "order": 0, "origin": format!("{}.Z", tag), "destination": format!("{}.Z", tag), "distance": 30000, "duration": 1800}]}
-        ],
-        "departures": [
-            {"id": format!("{}.da", tag), "route": format!("{}.rx", tag), "segments": [{"id": format!("{}.a", tag), "routeSegment": format!("{}.rxs", tag), "departure": t(a_start), "passengers": 50, "seated": 20}]},
-            {"id": format!("{}.dc", tag), "route": format!("{}.rz", tag), "segments": [{"id": format!("{}.c", tag), "routeSegment": format!("{}.rzs", tag), "departure": t(c_start), "passengers": 50, "seated": 20}]},
-            {"id": format!("{}.de", tag), "route": format!("{}.rz", tag), "segments": [{"id": format!("{}.e", tag), "routeSegment": format!("{}.rzs", tag), "departure": t(extra_start), "passengers": 50, "seated": 20}]}
-        ],
-        "maintenanceSlots": [{"id": format!("{}.m", tag), "location": format!("{}.Y", tag), "start": t(m_start), "end": t(m_end), "trackCount": 2}],
-        "deadHeadTrips": {
-            "indices": [format!("{}.X", tag), format!("{}.Y", tag), format!("{}.Z", tag)],
-            "durations": [[0, hop, slow], [hop, 0, hop], [slow, hop, 0]],
-            "distances": [[0, 9000, 400000], [9000, 0, 9000], [400000, 9000, 0]]
-        },
-        "parameters": {
-            "shunting": {"minimalDuration": shunt_min, "deadHeadTripDuration": shunt_dh},
-            "maintenance": {"maximalDistance": 500000},
-            "costs": {"staff": 10, "serviceTrip": 20, "maintenance": 5, "deadHeadTrip": 100, "idle": 3}
-        }
-    })
-}
-
 fn random_case(ctx: &Ctx, idx: u64, out: &mut CaseOut, st: &mut Stats) {
     let mut rng = Rng::new(mix(&[ctx.seed, hash_str("tour"), idx]));
     let profile = *rng.pick(&[Profile::Ties, Profile::Ties, Profile::NonMetric, Profile::Mixed, Profile::Forbid, Profile::Maint]);
@@ -460,7 +418,7 @@ fn random_case(ctx: &Ctx, idx: u64, out: &mut CaseOut, st: &mut Stats) {
         }
     }
     if rng.chance(1, 3) {
-        input = gap_network(&mut rng, &tag);
+        input = gen::gap_network(&mut rng, &tag);
         out.count("gap_networks", 1);
     }
     let b = Bridge::new(&input).expect("bridge");
